@@ -116,15 +116,26 @@ def make_check(flags, env_extra=None, label=None):
     return check
 
 
-def env_clauses(prop_id, families, n_quick=4, n_thorough=60):
+def env_clauses(prop_id, families, n_quick=4, n_thorough=60, more_of=None, more=0):
+    """``more_of`` names one entry of which ``more`` further valid units are put into every case (a property whose own decoder has
+    many kinds of input, e.g. the reserved-message parsers)."""
     out = []
+
+    def strategy(families=families):
+        base = st_units(families)
+        if not more_of:
+            return base
+        e = D.ENTRIES[more_of]
+        extra = st.lists(e.valid().map(lambda v: {"entry": e.name, "cfg": v["cfg"], "buf": v["raw"]}), min_size=more, max_size=more)
+        return st.tuples(base, extra).map(lambda t: t[0] + t[1])
+
     for tag, flags, env_extra in (("O", ("-OO",), None), ("W_error", ("-W", "error"), None), ("hashseed", (), {"PYTHONHASHSEED": "424242"}), ("bb", ("-bb",), None),
                                   ("debug_logging", (), {"VERIF_CHILD_LOGGING": "DEBUG"})):
         out.append(Clause(
             id=f"{prop_id}.interpreter_{tag}",
             doc=f"the decoders of {', '.join(families)} run in a child interpreter started with {' '.join(flags) or ('another hash seed (PYTHONHASHSEED=424242; this process runs with 0)' if tag == 'hashseed' else 'logging switched to DEBUG (root and library logger)')} give, "
                 "unit by unit, the outcome, observed fields, reported length, public properties and re-packed octets they give in this process (valid units, prefixes, units with a changed first octet or one flipped bit)",
-            strategy=(lambda families=families: st_units(families)), check=make_check(flags, env_extra, tag),
+            strategy=strategy, check=make_check(flags, env_extra, tag),
             classify=lambda units: ["has truncated unit"] if any(True for u in units) else [], weight_by_evals=True,
             rule="each (unit, flag set) comparison is one evaluation",
             n={"quick": n_quick, "thorough": n_thorough}, shrink_cap=6,
